@@ -243,7 +243,7 @@ def walk_statement_dollared_quote_parsing(buff, pos, endchar):
     return pos
 
 
-def walk_here_statement(buff, pos):
+def walk_here_statement(buff, pos, endchar=None):
     pos += 1
     logger.debug("starting here processing for COMMAND for level 2 at p == %.10s", pos)
     if buff[pos] == "<":
@@ -253,6 +253,8 @@ def walk_here_statement(buff, pos):
         return pos + 1
     isspace = str.isspace
     end = len(buff)
+    # <<- : the terminating line may be indented with tabs
+    strip_tabs = buff[pos] == "-"
     while pos < end and (isspace(buff[pos]) or buff[pos] == "-"):
         pos += 1
     if buff[pos] in "'\"":
@@ -272,10 +274,12 @@ def walk_here_statement(buff, pos):
     end_here = buff.find(here_word, end_here)
     while end_here != -1:
         i = here_len + end_here
-        # an empty here word (<<'') is terminated by an empty line only
-        if buff[i] in (";\n\r})" if here_len else "\n\r"):
+        # bash ends the document at a line that is exactly the word (after leading
+        # tabs for <<-); inside $( ) the word may also be followed by the closing
+        # parenthesis.  An empty here word (<<'') is terminated by an empty line only.
+        if buff[i] == "\n" or (here_len and buff[i] == ")" and endchar == ")"):
             i = end_here - 1
-            while i >= 0 and buff[i] in "\t ":
+            while strip_tabs and i >= 0 and buff[i] == "\t":
                 i -= 1
             if i >= 0 and buff[i] == "\n":
                 break
@@ -333,7 +337,7 @@ def walk_command_complex(buff, pos, endchar, interpret_level):
                 and buff[pos + 1] == "<"
                 and interpret_level == COMMAND_PARSING
             ):
-                pos = walk_here_statement(buff, pos + 1)
+                pos = walk_here_statement(buff, pos + 1, endchar)
                 # we continue immediately; walk_here deposits us at the end
                 # of the here op, not consuming the final delimiting char
                 # since it may be an endchar
